@@ -7,6 +7,7 @@ import (
 	"strings"
 	"testing"
 
+	"github.com/go-kid/ioc/container"
 	"pgregory.net/rapid"
 	"verif/harness/graph"
 	"verif/harness/kit"
@@ -119,6 +120,33 @@ func checkIdentity(in *graph.Instance, wrap *graph.WrapPP) (labels []string, non
 		for _, c := range all {
 			if !inLookup[c] {
 				return nil, false, fmt.Errorf("GetComponents returned %T %v which no by-name lookup returns", c, c)
+			}
+		}
+	}
+	// typed lookups through the public query options must return the same objects, completely
+	if !lookupFailed {
+		var nodes []any
+		var nerr error
+		if p := kit.Protect(func() {
+			nodes, nerr = in.Out.App.GetComponents(container.InterfaceType(reflect.TypeOf((*zoo.INode)(nil)).Elem()))
+		}); p == nil && nerr == nil {
+			want := 0
+			for _, c := range g.Pop {
+				if _, ok := c.Obj.(zoo.INode); ok {
+					want++
+				}
+			}
+			if len(nodes) != want {
+				return nil, false, fmt.Errorf("GetComponents(InterfaceType(INode)) returned %d components, %d registered components implement it", len(nodes), want)
+			}
+			inLookup := map[any]bool{}
+			for _, v := range lookup {
+				inLookup[v] = true
+			}
+			for _, n := range nodes {
+				if !inLookup[n] {
+					return nil, false, fmt.Errorf("GetComponents(InterfaceType(INode)) returned %T %v which no by-name lookup returns", n, n)
+				}
 			}
 		}
 	}
